@@ -244,7 +244,8 @@ def all_latin1(s):
 # C18 proper
 # ------------------------------------------------------------------------------------------------
 
-BOUNDS = {"quick": {"v": 1, "bd": 2, "shapes": 12}, "thorough": {"v": 2, "bd": 3, "shapes": 24}}
+BOUNDS = {"quick": {"v": 1, "bd": 2, "shapes": 12, "jshapes": 6},
+          "thorough": {"v": 2, "bd": 3, "shapes": 24, "jshapes": 12}}
 B = {}
 BOUNDS_TEXT = ("request streams of 40-110 bytes from 12 (quick) / 24 (thorough) shapes = framing {none, "
                "Content-Length, chunked} x obs-fold x Expect: 100-continue x {keep-alive, close}, always "
@@ -264,7 +265,7 @@ ASSUMPTIONS = ["LBytes/LBuf reproduce bytes/bytearray semantics (vlib.lbytes.sel
 EXPLANATION = ("lifted real HTTPChannel + LineReceiver + decoders run twice on the same symbolic stream "
                "(whole / split at every index / byte-wise) with a recording requestFactory and transport")
 
-_SECOND = "GET /b HTTP/1.1\r\nK: w\r\n\r\n"
+_SECOND = "GET /b HTTP/1.1\r\n\r\n"
 
 
 def build(shape, v, bd):
@@ -335,16 +336,41 @@ def seg_split(shape: int, v: str, bd: str, split: int) -> bool:
     return _same(whole, two)
 
 
-def seg_junk(shape: int, jpos: int, j: str, split: int) -> bool:
+def seg_junk(shape: int, jpos: int, j: str, d: int) -> bool:
     """
-    pre: 0 <= shape < 3 and 0 <= jpos < 16
+    pre: 0 <= shape < B['jshapes'] and 0 <= jpos < 19
+    pre: len(j) == 1 and ord(j) < 256
+    pre: 0 <= d <= 3
+    post: _
+    """
+    stream, anchors = build(shape, "v", "bd")
+    jp = split_cases(18, jpos)
+    if jp >= len(anchors):
+        return True
+    p = anchors[jp]
+    stream = stream[:p] + fix(j, 1) + stream[p + 1:]
+    k = max(0, p - 1 + split_cases(3, d))      # the four cuts around the junk byte
+    whole = run_channel([stream])
+    two = run_channel([stream[:k], stream[k:]])
+    many = run_channel([stream[i:i + 1] for i in range(len(stream))])
+    api.obs((whole[:3], two[:3], many[:3]))
+    cover()
+    return _same(whole, two) and _same(whole, many)
+
+
+def seg_junk_all(shape: int, jpos: int, j: str, split: int) -> bool:
+    """
+    pre: 0 <= shape < B['jshapes'] and 0 <= jpos < 19
     pre: len(j) == 1 and ord(j) < 256
     pre: 0 <= split
     post: _
     """
-    stream, anchors = build(shape, "v", "bd"[:B['bd']])
-    p = anchors[split_cases(len(anchors) - 1, jpos)]
-    stream = stream[:p] + j + stream[p + 1:]
+    stream, anchors = build(shape, "v", "bd")
+    jp = split_cases(18, jpos)
+    if jp >= len(anchors):
+        return True
+    p = anchors[jp]
+    stream = stream[:p] + fix(j, 1) + stream[p + 1:]
     k = split_cases(len(stream), split)
     whole = run_channel([stream])
     two = run_channel([stream[:k], stream[k:]])
@@ -353,34 +379,30 @@ def seg_junk(shape: int, jpos: int, j: str, split: int) -> bool:
     return _same(whole, two)
 
 
-def seg_bytewise(shape: int, v: str, bd: str, jpos: int, j: str) -> bool:
-    """
-    pre: 0 <= shape < B['shapes'] and 0 <= jpos < 16
-    pre: len(v) == 1 and len(bd) == B['bd'] and all_latin1(v) and all_latin1(bd)
-    pre: len(j) == 1 and ord(j) < 256
-    post: _
-    """
-    stream, anchors = build(shape, v, bd)
-    p = anchors[split_cases(len(anchors) - 1, jpos)]
-    stream = stream[:p] + j + stream[p + 1:]
-    whole = run_channel([stream])
-    many = run_channel([stream[i:i + 1] for i in range(len(stream))])
-    api.obs((whole[:3], many[:3]))
-    cover()
-    return _same(whole, many)
-
-
 def _shape_shards(tier):
     return [("shape == %d" % s,) for s in range(BOUNDS[tier]["shapes"])]
 
 
+def _jshape_shards(tier):
+    return [("shape == %d" % s,) for s in range(BOUNDS[tier]["jshapes"])]
+
+
 HARNESSES = [
     H(seg_split, shards=_shape_shards, timeout={"quick": 100, "thorough": 1500}),
+    H(seg_junk, shards=lambda tier: [("shape == %d" % s, "jpos %% 2 == %d" % r)
+                                     for s in range(BOUNDS[tier]["jshapes"]) for r in range(2)],
+      timeout={"quick": 100, "thorough": 900}),
+    H(seg_junk_all, shards=lambda tier: [("shape == %d" % s, "jpos %% 3 == %d" % r)
+                                         for s in range(BOUNDS[tier]["jshapes"]) for r in range(3)],
+      timeout={"thorough": 1500}, tiers=("thorough",)),
 ]
 
 VECTORS = {
     "seg_split": [(0, "v", "ab", 5), (1, "\r", "\r\n", 40), (2, "\x00", "xy", 70), (4, " ", "a\xff", 33),
-                  (8, "\t", "12", 60), (11, ":", "zz", 90)],
+                  (8, "\t", "12", 60), (11, ":", "zz", 90), (13, "x", "..", 50), (17, "\n", "ab", 77)],
+    "seg_junk": [(0, 0, "\r", 0), (1, 7, "x", 1), (2, 12, "g", 2), (2, 14, "\n", 3), (5, 8, "\t", 0),
+                 (1, 3, "\xff", 2), (2, 15, "1", 1), (0, 9, "\r", 3), (4, 12, "\x00", 2)],
+    "seg_junk_all": [(1, 6, ";", 30), (2, 13, "\n", 60)],
 }
 
 
